@@ -85,7 +85,15 @@ func lzClass(n int) string {
 func exponents(r *core.Rng, p *big.Int) []*big.Int {
 	one := big.NewInt(1)
 	max := new(big.Int).Sub(new(big.Int).Lsh(one, 2048), one)
-	return []*big.Int{big.NewInt(0), big.NewInt(1), big.NewInt(2), new(big.Int).Sub(p, one), new(big.Int).Set(p), new(big.Int).Add(p, one), max,
+	pm1 := new(big.Int).Sub(p, one)
+	// multiples of the group order p-1 that still fit 2048 bits (Fermat: y^(k(p-1)) = 1 only for y coprime to p)
+	kq := new(big.Int).Mul(pm1, big.NewInt(int64(r.Range(2, 99))))
+	if p.BitLen() < 1500 {
+		kq.Lsh(kq, uint(r.Range(1, 900)))
+	} else {
+		kq = new(big.Int).Set(pm1) // group 14: 2(p-1) no longer fits 2048 bits; use p-1 again
+	}
+	return []*big.Int{big.NewInt(0), big.NewInt(1), big.NewInt(2), pm1, new(big.Int).Set(p), new(big.Int).Add(p, one), max, kq,
 		big.NewInt(int64(r.Range(3, 800))), new(big.Int).SetBytes(r.Bytes(r.Range(1, 256))), new(big.Int).SetBytes(r.Bytes(256)), new(big.Int).SetBytes(r.Bytes(17))}
 }
 
@@ -93,7 +101,8 @@ func peers(r *core.Rng, p *big.Int) []*big.Int {
 	one := big.NewInt(1)
 	max := new(big.Int).Sub(new(big.Int).Lsh(one, 2056), one)
 	lz := new(big.Int).SetBytes(r.Bytes(r.Range(1, len(p.Bytes())-1))) // value with leading zero octets
-	return []*big.Int{big.NewInt(0), big.NewInt(1), big.NewInt(2), new(big.Int).Sub(p, one), new(big.Int).Set(p), new(big.Int).Add(p, one), max,
+	kp := new(big.Int).Mul(p, big.NewInt(int64(r.Range(2, 200)))) // a multiple of p below 2^2056
+	return []*big.Int{big.NewInt(0), big.NewInt(1), big.NewInt(2), new(big.Int).Sub(p, one), new(big.Int).Set(p), new(big.Int).Add(p, one), max, kp,
 		lz, new(big.Int).SetBytes(r.Bytes(len(p.Bytes()))), new(big.Int).SetBytes(r.Bytes(257))}
 }
 
@@ -125,6 +134,18 @@ func c09(c *core.Ctx) {
 	c.Family("modexp", c.N(60, 8000), func(k *core.Case) {
 		gi := k.Index % 2
 		g, p, n := grp(gi)
+		type heldRes struct {
+			got, snap []byte
+		}
+		var held []heldRes // results handed out earlier must not change when later ones are computed
+		defer func() {
+			for _, h := range held {
+				if !bytes.Equal(h.got, h.snap) {
+					k.Violate("history", "earlier-dh-result-changed-by-later-call", "a public value / shared secret returned earlier changed when a later one was computed", M{"group": libsa.DhNames[gi]})
+					return
+				}
+			}
+		}()
 		for _, x := range exponents(k.R, p) {
 			k.Eval(1)
 			var pub []byte
@@ -139,6 +160,7 @@ func c09(c *core.Ctx) {
 				k.Violate("mismatch", fmt.Sprintf("public-value-wrong/len=%d", len(pub)), fmt.Sprintf("GetPublicValue = %x (%d octets), reference 2^x mod p = %x", pub, len(pub), want), w)
 				continue
 			}
+			held = append(held, heldRes{pub, append([]byte{}, pub...)})
 			k.Count("lz_public_"+lzClass(leadingZeros(pub)), 1)
 			k.Distinct(fmt.Sprintf("pub|%d|%s|lz%s", gi, bigClass(x, p), lzClass(leadingZeros(pub))))
 			for _, y := range peers(k.R, p) {
@@ -467,6 +489,53 @@ func c10(c *core.Ctx) {
 			k.Sample(w)
 		}
 	})
+	// the key buffer is the caller's: successive keys written into ONE scratch buffer (or a wiped buffer followed by a
+	// genuinely all-zero key) must give cipher objects keyed with the contents at the time of each NewCrypto call
+	c.Family("key-buffer-reuse", c.N(3*40, 3*4000), func(k *core.Case) {
+		kl := []int{16, 24, 32}[k.Index%3]
+		buf := make([]byte, kl)
+		var objs []interface {
+			Encrypt([]byte) ([]byte, error)
+			Decrypt([]byte) ([]byte, error)
+		}
+		var keys [][]byte
+		n := 2 + k.R.Intn(3)
+		for i := 0; i < n; i++ {
+			key := k.R.Bytes(kl)
+			if k.R.Chance(1, 3) {
+				key = make([]byte, kl) // e.g. a wiped buffer
+			}
+			copy(buf, key)
+			ci, err := newCipher(kl, buf)
+			if err != nil {
+				k.Violate("key-size", "NewCrypto-refuses-negotiated-size", err.Error(), nil)
+				return
+			}
+			objs = append(objs, ci)
+			keys = append(keys, key)
+		}
+		for i := range buf {
+			buf[i] = 0xA5 // the caller scrubs its buffer afterwards
+		}
+		for i, ci := range objs {
+			pt := k.R.Bytes(k.R.Intn(60))
+			k.Eval(1)
+			ct, err := ci.Encrypt(append([]byte{}, pt...))
+			if err != nil || len(ct) < 32 {
+				k.Violate("error", "Encrypt-error", fmt.Sprint(err), nil)
+				return
+			}
+			dec, derr := ref.CBCDecrypt(keys[i], ct[:16], ct[16:])
+			if derr != nil || !bytes.HasPrefix(dec, pt) {
+				k.Violate("history", "cipher-object-keyed-with-other-contents-of-the-callers-key-buffer",
+					fmt.Sprintf("object #%d of %d built from one reused key buffer does not encrypt under the key that was in the buffer when it was built", i, n),
+					M{"keys": fmt.Sprintf("%x", keys), "object": i})
+				return
+			}
+		}
+		k.Count("key_buffer_reuse_cases", 1)
+		k.Distinct(fmt.Sprintf("keybuf|%d|%d", kl, n))
+	})
 	c.Family("iv-freshness", c.N(48, 6000), func(k *core.Case) {
 		kl := []int{16, 24, 32}[k.Index%3]
 		key := k.R.Bytes(kl)
@@ -661,7 +730,7 @@ func c10(c *core.Ctx) {
 		}
 		k.Distinct(fmt.Sprintf("hist|%d|%d", kl, k.Index/3%8))
 	})
-	c.Require("short_read_sources", "fault_at_read_0", "fault_at_read_1", "lib_pad_0", "lib_pad_15")
+	c.Require("key_buffer_reuse_cases", "short_read_sources", "fault_at_read_0", "fault_at_read_1", "lib_pad_0", "lib_pad_15")
 }
 
 var _ = message.TypeSK
